@@ -1239,6 +1239,13 @@ class Interp:
             raise AnalysisError("non-constant tuple slice")
         return int(c.re)
 
+    def ev_Slice(self, node, env):
+        return SliceV(
+            self.eval(node.lower, env) if node.lower is not None else None,
+            self.eval(node.upper, env) if node.upper is not None else None,
+            self.eval(node.step, env) if node.step is not None else None,
+        )
+
     def ev_Lambda(self, node, env):
         return FuncRef("lambda", "<lambda>", self.cur_mod, node, bound=env)
 
